@@ -16,6 +16,7 @@ Outcome scen_objfn(const sim::Plan& p, int threads, const sc::Params& sp) { retu
 Outcome scen_norm(const sim::Plan& p, int threads, const sc::Params& sp) { return scen_norm_impl(p, threads, sp); }
 Outcome scen_scatter(const sim::Plan& p, int threads, const sc::Params& sp) { return scen_scatter_impl(p, threads, sp); }
 Outcome scen_array(const sim::Plan& p, int threads, const sc::Params& sp) { return scen_array_impl(p, threads, sp); }
+Outcome scen_lm(const sim::Plan& p, int threads, const sc::Params& sp) { return scen_lm_impl(p, threads, sp); }
 }
 namespace {
 
@@ -26,7 +27,7 @@ gen(uint64_t seed, const std::string& tier, long idx)
   Plan p;
   p.seed = seed;
   const bool thorough = tier == "thorough";
-  static const char* scen[] = { "fwd", "bck", "lazy", "cache", "objfn", "norm", "scatter", "fwd", "bck", "cache", "array" };
+  static const char* scen[] = { "fwd", "bck", "lazy", "cache", "objfn", "norm", "scatter", "fwd", "bck", "cache", "array", "lm" };
   Op o;
   o.kind = scen[idx % (sizeof scen / sizeof *scen)];
   p.ops.push_back(o);
